@@ -109,7 +109,7 @@ def certVerdictC (G : Graph) (prios : List Nat) (D : VecL) (T : Option (List LEn
   match T with
   | none => "UNKNOWN table"
   | some T =>
-    if !liveCertB T D then "FAIL livecert" else
+    if !liveCertBFast T D then "FAIL livecert" else   -- = liveCertB T D (`liveCertBFast_eq`)
     if allCls.any (fun p0 => allCls.any fun n => (winC prios p0 n D).isSome) then "NULLABLE" else
     let V := oracleFast (tableMap T)   -- = oracleOf T (`oracleFast_eq`)
     match closureC G (allCls.map fun p0 => (G.root, D, p0)) {} fuel with
